@@ -133,7 +133,7 @@ def type_witness(check: Check, repo: Repo, mods: Iterable[Module], rule: str = "
                 check.ob(rule, (m.rel, ln, fn), f"[{code}] {msg[:140]}", True,
                          f"narrowed by a dominating test mypy does not track: {ev}")
                 continue
-            if code == "assignment" and "| None" in msg:
+            if code == "assignment":
                 stored = _optional_only_stored(m, ln)
                 if stored:
                     # the local got its type from an earlier, narrower assignment (inference order); nothing ever
@@ -149,25 +149,28 @@ def _optional_only_stored(m: Module, line: int) -> str | None:
     from sa.loader import enclosing_function, parent, unparse
 
     asg = [s for s in ast.walk(m.tree) if isinstance(s, ast.Assign) and s.lineno <= line <= (s.end_lineno or s.lineno)
-           and len(s.targets) == 1 and isinstance(s.targets[0], ast.Name)]
+           and s.targets and all(isinstance(t, ast.Name) for t in s.targets)]
     if len(asg) != 1:
         return None
-    name = asg[0].targets[0].id
     fn = enclosing_function(asg[0])
     if fn is None or isinstance(fn, ast.Lambda):
         return None
-    if any(isinstance(s, ast.AnnAssign) and isinstance(s.target, ast.Name) and s.target.id == name for s in ast.walk(fn)):
-        return None  # declared on purpose: the declared type is a statement about the value
-    if name in {a.arg for a in fn.args.posonlyargs + fn.args.args + fn.args.kwonlyargs}:
-        return None
-    uses = [n for n in ast.walk(fn) if isinstance(n, ast.Name) and n.id == name and isinstance(n.ctx, ast.Load)]
-    for u in uses:
-        p = parent(u)
-        deref = (isinstance(p, ast.Attribute) and p.value is u) or (isinstance(p, ast.Call) and p.func is u) or (
-            isinstance(p, ast.Subscript) and p.value is u) or isinstance(p, (ast.BinOp, ast.UnaryOp, ast.For, ast.comprehension, ast.Starred, ast.Await))
-        if deref:
+    n_uses = 0
+    for name in [t.id for t in asg[0].targets]:
+        if any(isinstance(s, ast.AnnAssign) and isinstance(s.target, ast.Name) and s.target.id == name for s in ast.walk(fn)):
+            return None  # declared on purpose: the declared type is a statement about the value
+        if name in {a.arg for a in fn.args.posonlyargs + fn.args.args + fn.args.kwonlyargs}:
             return None
-    return f"`{name}` is only stored or passed on ({len(uses)} use(s), none dereferences it); its type was inferred from an earlier assignment"
+        uses = [n for n in ast.walk(fn) if isinstance(n, ast.Name) and n.id == name and isinstance(n.ctx, ast.Load)]
+        n_uses += len(uses)
+        for u in uses:
+            p = parent(u)
+            deref = (isinstance(p, ast.Attribute) and p.value is u) or (isinstance(p, ast.Call) and p.func is u) or (
+                isinstance(p, ast.Subscript) and p.value is u) or isinstance(p, (ast.BinOp, ast.UnaryOp, ast.For, ast.comprehension, ast.Starred, ast.Await))
+            if deref:
+                return None
+    names = ", ".join(f"`{t.id}`" for t in asg[0].targets)
+    return f"{names} only stored or passed on ({n_uses} use(s), none dereferences it); the type was inferred from an earlier assignment"
 
 
 _flows: dict[ast.AST, object] = {}
